@@ -46,6 +46,7 @@ fn checks() -> Vec<Check> {
         sim::c13::check(),
         sim::c14::check(),
         sim::c16::check(),
+        sim::c19::check(),
         sim::c20::check(),
         web::c15::check(),
         web::c17::check(),
